@@ -358,7 +358,7 @@ func msgOps(b []byte, r *vu.Rng) []string {
 	h := vu.Hex(b)
 	ops := []string{"unpack " + h, "skipall " + h}
 	for k := 0; k < 2; k++ {
-		sc := string(r.BytesFrom("pshk", 1+r.Intn(8)))
+		sc := string(r.BytesFrom("pshkw", 1+r.Intn(8)))
 		if r.Chance(1, 6) {
 			sc = "-"
 		}
